@@ -11,6 +11,10 @@ use swc_core::{
     plugin::errors::HANDLER,
 };
 
+/// Marks a type whose values can't be checked at runtime (`any`, `unknown`, ...),
+/// unlike `None` which stands for the `null` value.
+const UNKNOWN_TYPE: &str = "Unknown";
+
 enum RefinedTsTypeElement {
     Property(TsPropertySignature),
     GetterSignature(TsGetterSignature),
@@ -298,7 +302,10 @@ where
                     let mut props = vec![
                         PropOrSpread::Prop(Box::new(Prop::KeyValue(KeyValueProp {
                             key: PropName::Ident(quote_ident!("type")),
-                            value: Box::new(if ir.types.len() == 1 {
+                            value: Box::new(if ir.types.contains(&Some(Atom::from(UNKNOWN_TYPE))) {
+                                // a value of unknown type anywhere in the union: skip the check
+                                Expr::Lit(Lit::Null(Null { span: DUMMY_SP }))
+                            } else if ir.types.len() == 1 {
                                 if let Some(ty) = ir.types.pop().unwrap() {
                                     Expr::Ident(quote_ident!(ty).into())
                                 } else {
@@ -1026,6 +1033,10 @@ where
                 }
                 TsKeywordTypeKind::TsSymbolKeyword => {
                     runtime_types.insert(Some(atom!("Symbol")));
+                }
+                TsKeywordTypeKind::TsAnyKeyword | TsKeywordTypeKind::TsUnknownKeyword => {
+                    // no runtime check is possible
+                    runtime_types.insert(Some(Atom::from(UNKNOWN_TYPE)));
                 }
                 _ => {
                     runtime_types.insert(None);
